@@ -2839,7 +2839,21 @@ impl OutboundPayments {
 					| PendingOutboundPayment::Retryable { .. }
 					| PendingOutboundPayment::Fulfilled { .. }
 					| PendingOutboundPayment::Abandoned { .. } => {
-						entry.get_mut().insert(session_priv_bytes, &path)
+						let newly_added = entry.get_mut().insert(session_priv_bytes, &path);
+						if newly_added {
+							// A payment we are rebuilding from `ChannelMonitor`s alone was created, above,
+							// with the amount of the first part we came across as its total. Its total is
+							// at least the sum of the parts which are in flight.
+							if let PendingOutboundPayment::Retryable {
+								total_msat, pending_amt_msat, ..
+							} = entry.get_mut()
+							{
+								if *total_msat < *pending_amt_msat {
+									*total_msat = *pending_amt_msat;
+								}
+							}
+						}
+						newly_added
 					},
 				};
 				log_info!(logger, "{} a pending payment path for {} msat for session priv {} on an existing pending payment with payment hash {}",
